@@ -39,6 +39,7 @@ TABLES = {
 ALIASES = ["x", "y"]
 COLUMN_LIKE_ALIASES = ["k", "s", "w"]  # other work may alias a DataFrame with a name that is a column name of P
 VIEWS = ["va", "vb"]
+REAL_TABLES = {"items": {"schema": {"k": "int", "z": "int"}, "rows": [[1, 100], [2, 200]]}}  # a permanent table of the engine
 DEFECT_HYPS = {"H_ctesHaveIds", "H_viewColumnsStable"}
 
 
@@ -63,6 +64,7 @@ class PGen:
         self.steps: t.List[dict] = []
         self.n = 0
         self.role = role
+        self.use_real = False
         self.views: t.Dict[str, dict] = {}  # view name -> schema (own registrations)
 
     def fresh(self) -> str:
@@ -170,7 +172,7 @@ class PGen:
         if not fs:
             return None
         u = r.choice(fs)
-        name = r.choice(VIEWS)
+        name = r.choice(VIEWS + (list(REAL_TABLES) if self.use_real else []))  # a temp view may shadow a permanent table
         sch = self.vars[u]["schema"]
         self.add({"op": "register", "in": u, "name": name, "cols": list(sch)})
         self.views[name] = sch
@@ -189,6 +191,11 @@ class PGen:
             g = X.Gen(r, out_s)
             v = self.add({"op": "where", "out": self.fresh(), "in": v, "p": g.bool_expr(1)}, dict(out_s), alias=None, kind=self.vars[v]["kind"])
         return v
+
+    def table_real(self) -> str:
+        """session.table(<permanent table>): the session catalog caches the table's columns"""
+        name = self.rng.choice(list(REAL_TABLES))
+        return self.add({"op": "table_real", "out": self.fresh(), "name": name}, dict(REAL_TABLES[name]["schema"]), alias=None, kind="df")
 
     def table_read(self) -> t.Optional[str]:
         if not self.views:
@@ -244,6 +251,8 @@ class PGen:
                 v = self.create()
                 if self.role == "H" and r.random() < 0.6:
                     self.alias_only()
+                if self.role == "H" and self.use_real and r.random() < 0.7:
+                    self.table_real()
             elif with_actions:
                 self.action()
             if v:
@@ -262,15 +271,44 @@ def gen_case(rng: random.Random) -> dict:
         tb = rng.choice(list(TABLES))
         prelude.append({"op": "create", "out": "s1", "tbl": tb})
         shared["s1"] = {"schema": dict(TABLES[tb]["schema"]), "alias": None, "kind": "df"}
+    use_real = rng.random() < 0.3
     pg = PGen(rng, "p", shared, "P")
+    pg.use_real = use_real
     psteps, pres = pg.build(rng.randint(2, 4), with_actions=False)
     if pres is None:
         pres = pg.create()
         psteps = pg.steps
     hg = PGen(rng, "h", shared, "H")
+    hg.use_real = use_real
+    if use_real and rng.random() < 0.7:
+        hg.table_real()
     hsteps, _ = hg.build(rng.randint(2, 5), with_actions=True)
     inter = interleave(rng, psteps, hsteps)
-    return {"data": data, "prelude": prelude, "P": psteps, "H": hsteps, "inter": inter, "result": pres}
+    return {"data": data, "tables": (list(REAL_TABLES) if use_real else []), "prelude": prelude, "P": psteps, "H": hsteps, "inter": inter, "result": pres}
+
+
+def family_shadow_table(rng: random.Random) -> dict:
+    """other work reads a permanent table through the session; P then registers a temp view of the same name
+    (legal: a temp view shadows a table) with other columns and queries it"""
+    data = {tb: X.gen_table(rng, TABLES[tb]["schema"], 4) or [[1, "a"] if tb == "T1" else [1, 10]] for tb in TABLES}
+    tb = rng.choice(list(TABLES))
+    cols = list(TABLES[tb]["schema"])
+    c = rng.choice(cols)
+    text = rng.choice(["SELECT * FROM items", f"SELECT x.{c} AS {c} FROM items AS x", f"WITH c AS (SELECT * FROM items) SELECT c.{c} AS {c} FROM c"])
+    P = [
+        {"op": "create", "out": "p1", "tbl": tb},
+        {"op": "register", "in": "p1", "name": "items", "cols": cols},
+        {"op": "sql", "out": "p2", "text": text, "views": ["items"]},
+    ]
+    H: t.List[dict] = [{"op": "table_real", "out": "h1", "name": "items"}]
+    if rng.random() < 0.5:
+        H.append({"op": rng.choice(["collect", "count", "schema"]), "in": "h1"})
+    if rng.random() < 0.4:
+        H.append({"op": "where", "out": "h2", "in": "h1", "p": ("bin", "gt", ("col", "z"), ("lit", 0))})
+    inter = [["H", i] for i in range(len(H))] + [["P", i] for i in range(len(P))]
+    if rng.random() < 0.4 and len(H) > 1:  # part of the other work comes after P's registration
+        inter = [["H", 0], ["P", 0], ["P", 1]] + [["H", i] for i in range(1, len(H))] + [["P", 2]]
+    return {"data": data, "tables": list(REAL_TABLES), "prelude": [], "P": P, "H": H, "inter": inter, "result": "p2"}
 
 
 def interleave(rng: random.Random, ps: t.List[dict], hs: t.List[dict]) -> t.List[t.List[t.Any]]:
@@ -371,11 +409,11 @@ def install_hook() -> None:
     _HOOKED = True
 
 
-def snapshot(s: t.Any) -> dict:
+def snapshot(s: t.Any, tables: t.Sequence[str] = ()) -> dict:
     from sqlglot import exp
 
     cols = {}
-    for name in s.temp_views:
+    for name in list(s.temp_views) + [x for x in tables if x not in s.temp_views]:
         found = s.catalog._schema.find(exp.to_table(name), raise_on_missing=False)
         cols[name] = list(found.keys()) if found else None
     return {
@@ -421,7 +459,7 @@ def exec_step(s: t.Any, env: t.Dict[str, t.Any], st: dict, data: dict) -> t.Any:
         env[st["in"]].createOrReplaceTempView(st["name"])
     elif op == "sql":
         env[st["out"]] = s.sql(st["text"])
-    elif op == "table":
+    elif op in ("table", "table_real"):
         env[st["out"]] = s.table(st["name"])
     elif op == "collect":
         env[st["in"]].collect()
@@ -459,6 +497,11 @@ def run_script(c: dict, which: str) -> dict:
     tag, op, error, registry snapshot, normalisation trace, listTables before/after for read-only actions."""
     install_hook()
     s = vlib.fresh_duckdb_session()
+    for name in c.get("tables", []):
+        tb = REAL_TABLES[name]
+        s._conn.execute(f"create table {name} (" + ", ".join(f"{c_} {'bigint' if ty == 'int' else 'varchar'}" for c_, ty in tb["schema"].items()) + ")")
+        for r_ in tb["rows"]:
+            s._conn.execute(f"insert into {name} values ({', '.join('?' for _ in r_)})", list(r_))
     env: t.Dict[str, t.Any] = {}
     seq: t.List[t.Tuple[str, dict]] = [("S", st) for st in c["prelude"]]
     if which == "inter":
@@ -480,12 +523,14 @@ def run_script(c: dict, which: str) -> dict:
                 exec_step(s, env, st, c["data"])
             except Exception as e:  # noqa
                 err = f"{type(e).__name__}: {str(e)[:120]}"
-        rec = {"tag": tag, "op": st["op"], "err": err, "snap": snapshot(s), "trace": copy.deepcopy(_TRACE)}
+        rec = {"tag": tag, "op": st["op"], "err": err, "snap": snapshot(s, c.get("tables", [])), "trace": copy.deepcopy(_TRACE)}
         if before is not None:
             rec["tables_before"] = before
             rec["tables_before_star"] = before_star
             rec["tables_after"] = sorted(t_.name for t_ in s.catalog.listTables())
             rec["tables_after_star"] = sorted(t_.name for t_ in s.catalog.listTables(pattern="*"))
+        if st["op"] == "register" and not err:
+            rec["reg_cols"] = list(env[st["in"]].columns)  # what was really registered (a frame read by name may be a view)
         if st["op"] == "sql" and not err:
             rec["read_cols"] = {v: rec["snap"]["cols"].get(v) for v in st.get("views", [])}
         log_.append(rec)
@@ -527,6 +572,13 @@ def model_events(c: dict, run: dict) -> t.Tuple[t.List[t.Any], t.List[int]]:
                 steps.append("failedAction")
         elif op == "alias":
             steps = [{"alias": {"n": find_alias_name(prev, snap), "s": (new_s + ["?"])[0]}}]
+        elif op == "table_real":
+            if new_b or new_s:  # a read of the permanent table (not of a temp view that shadows it)
+                steps = [{"cacheCols": {"n": rec["_name"], "cols": rec["_cols"]}}, {"derive": {"b": (new_b + ["?"])[0], "s": (new_s + ["?"])[0]}}]
+            else:
+                steps = ["transform"]
+            if rec["err"]:
+                steps.append("failedAction")
         elif op == "schema":
             # the random id that names the temporary view is drawn before the view is created
             steps = [{"schemaLookup": {"v": new_k[0]}}] if new_k else []
@@ -565,7 +617,10 @@ def annotate(c: dict, run: dict, which: str) -> None:
     for rec, st in zip(run["log"], seq):
         if st["op"] == "register":
             rec["_name"] = st["name"].lower()
-            rec["_cols"] = st["cols"]
+            rec["_cols"] = rec.get("reg_cols", st["cols"])
+        if st["op"] == "table_real":
+            rec["_name"] = st["name"].lower()
+            rec["_cols"] = list(REAL_TABLES[st["name"]]["schema"])
         rec["_views"] = st.get("views", [])
 
 
@@ -787,6 +842,12 @@ TEXT_PROGRAMS = [
     ("view_sql", "a = s.createDataFrame([(1,'x'),(2,'y')], schema='k bigint, s string')\n    a.where(F.col('k') > 0).createOrReplaceTempView('va')\n    return s.sql('WITH c AS (SELECT x.k AS k FROM va AS x) SELECT c.k AS k FROM c').where(F.col('k') > 1)", False),
     ("handle", "a = s.createDataFrame([(1,'x'),(2,'y')], schema='k bigint, s string')\n    c = a['k']\n    a.select(c)\n    return a.distinct().where(c > 0)", False),
     ("groupby", "a = s.createDataFrame([(1,10),(1,20),(2,5)], schema='k bigint, w bigint')\n    return a.groupBy('k').agg(F.sum('w').alias('t')).where(F.col('t') > 5)", False),
+    (
+        "union_by_name_missing",
+        "a = s.createDataFrame([(1,'x')], schema='k bigint, s string')\n    b = s.createDataFrame([(2, 10, 20, 30, 40, 50)], schema='k bigint, c1 bigint, c2 bigint, c3 bigint, c4 bigint, c5 bigint')\n    return a.unionByName(b, allowMissingColumns=True)",
+        False,
+        ["k", "s", "c1", "c2", "c3", "c4", "c5"],
+    ),
     ("self_join", "a = s.createDataFrame([(1,'x'),(2,'y')], schema='k bigint, s string')\n    return a.join(a, on='k')", True),
     ("self_union", "a = s.createDataFrame([(1,'x'),(2,'y')], schema='k bigint, s string')\n    return a.union(a).where(F.col('k') > 0)", True),
     ("derived_self_join", "a = s.createDataFrame([(1,'x'),(2,'y')], schema='k bigint, s string')\n    b = a.where(F.col('k') > 0)\n    return b.join(a, on='k')", True),
@@ -806,7 +867,7 @@ try:
     opt = df.sql()
 except Exception as e:  # the sqlglot optimizer rejects some diamond-shaped lineages (a C03 matter): compare the unoptimized text
     opt = "OPTIMIZER-ERROR " + type(e).__name__
-print(json.dumps({{"opt": opt, "raw": df.sql(optimize=False), "rows": sorted(json.dumps(list(r), default=str) for r in df.collect())}}))
+print(json.dumps({{"opt": opt, "raw": df.sql(optimize=False), "cols": list(df.columns), "rows": sorted(json.dumps(list(r), default=str) for r in df.collect())}}))
 """
 
 
@@ -840,7 +901,9 @@ def mask(text: str) -> str:
 
 def check_texts(ctx: Ctx) -> t.Dict[str, t.Any]:
     jobs = []
-    for name, body, _ in TEXT_PROGRAMS:
+    for prog in TEXT_PROGRAMS:
+        name, body = prog[0], prog[1]
+        # two fresh interpreters with DIFFERENT string-hash seeds (set iteration order differs between them)
         jobs.append((name, body, 1))
         jobs.append((name, body, 2))
     import multiprocessing.pool as mpp
@@ -851,7 +914,9 @@ def check_texts(ctx: Ctx) -> t.Dict[str, t.Any]:
     for o in outs:
         by.setdefault(o["name"], []).append(o)
     report = {}
-    for name, body, combo in TEXT_PROGRAMS:
+    for prog in TEXT_PROGRAMS:
+        name, body, combo = prog[0], prog[1], prog[2]
+        want_cols = prog[3] if len(prog) > 3 else None
         a, b = by[name]
         if "err" in a or "err" in b:
             report[name] = {"error": (a.get("err") or b.get("err"))[-200:]}
@@ -863,15 +928,18 @@ def check_texts(ctx: Ctx) -> t.Dict[str, t.Any]:
         else:
             ok = a["opt"] == b["opt"] and a["raw"] == b["raw"]
         report[name] = {"identical": a["opt"] == b["opt"] and a["raw"] == b["raw"], "identical_up_to_literals": mask(a["opt"]) == mask(b["opt"]) and mask(a["raw"]) == mask(b["raw"]), "rows_equal": same_rows, "self_combination": combo}
-        if not ok or not same_rows:
+        cols_ok = want_cols is None or (a.get("cols") == want_cols and b.get("cols") == want_cols)
+        report[name]["columns_as_specified"] = cols_ok
+        if not ok or not same_rows or not cols_ok:
             vlib.report_violation(
                 ctx,
                 {
-                    "kind": "df.sql() of the same program differs between two fresh interpreters",
+                    "kind": "df.sql() / columns of the same program differ between two fresh interpreters (different PYTHONHASHSEED) or from the specified column order",
                     "program": body,
                     "self_combination": combo,
-                    "process_A": {"sql": a["opt"], "sql_unoptimized": a["raw"]},
-                    "process_B": {"sql": b["opt"], "sql_unoptimized": b["raw"]},
+                    "columns_specified_by_pyspark": want_cols,
+                    "process_A": {"PYTHONHASHSEED": 1, "columns": a.get("cols"), "sql": a["opt"], "sql_unoptimized": a["raw"]},
+                    "process_B": {"PYTHONHASHSEED": 2, "columns": b.get("cols"), "sql": b["opt"], "sql_unoptimized": b["raw"]},
                 },
             )
     return report
@@ -969,8 +1037,8 @@ def show_step(st: dict) -> str:
         return f"{st['in']}.createOrReplaceTempView({st['name']!r})"
     if op == "sql":
         return f"{st['out']} = session.sql({st['text']!r})"
-    if op == "table":
-        return f"{st['out']} = session.table({st['name']!r})"
+    if op in ("table", "table_real"):
+        return f"{st['out']} = session.table({st['name']!r})" + ("   # a permanent table" if op == "table_real" else "")
     if op in ("collect", "count", "show", "schema"):
         return f"{st['in']}.{op}" + ("" if op == "schema" else "()")
     if op == "bad_collect":
@@ -981,7 +1049,7 @@ def show_step(st: dict) -> str:
 
 
 def show_case(c: dict) -> t.List[str]:
-    out = [f"{k} = {v}" for k, v in c["data"].items()]
+    out = [f"{k} = {v}" for k, v in c["data"].items()] + [f"permanent table {n}{list(REAL_TABLES[n]['schema'])} = {REAL_TABLES[n]['rows']}" for n in c.get("tables", [])]
     out += ["[shared] " + show_step(s) for s in c["prelude"]]
     for tag, i in c["inter"]:
         out.append(f"[{tag}] " + show_step((c["P"] if tag == "P" else c["H"])[i]))
@@ -998,7 +1066,11 @@ def cases_for(ctx: Ctx) -> t.List[dict]:
                 c = json.load(open(os.path.join(corpus_dir, fn)))
                 c["origin"] = "corpus:" + fn
                 cases.append(c)
-    n = 1500 if ctx.thorough else 220
+    for _ in range(64 if ctx.thorough else 16):
+        c = family_shadow_table(ctx.rng)
+        c["origin"] = "family_shadow_table"
+        cases.append(c)
+    n = 1500 if ctx.thorough else 210
     for _ in range(n):
         c = gen_case(ctx.rng)
         c["origin"] = "random"
